@@ -146,3 +146,36 @@ Proof.
   destruct (Proofs.Qcow2Total.qcow2_read_total im off len Hwf Hc Hoff Hlen) as (p & Hp & Hs).
   exists p, (Z.min len (Model.Qcow2.size_of im - off)). repeat split; try assumption; lia.
 Qed.
+
+(* ---- VMDK sparse extent (hosted / COWD / SE-sparse), single-extent disk ---- *)
+From DH Require Model.Vmdk Proofs.Vmdk.
+
+Theorem vmdk_sparse_contract (f : Model.Vmdk.vfile) (sp : Model.Vmdk.sparse) hp align :
+  Proofs.Vmdk.wf_sparse f sp -> 0 < align -> align mod 512 = 0 ->
+  reader_contract (Model.Vmdk.sp_capacity sp * 512) align
+    (fun off len => match Model.Vmdk.vmdk_read (Model.Vmdk.mk_vmdk [Model.Vmdk.XSparse f sp hp]) off len with
+                    | Ok p => Ok (Model.Vmdk.plan_of_x p) | Err => Err | Fuel => Fuel end)
+    (Model.Vmdk.guest_src f sp 0 hp).
+Proof.
+  intros Hwf Hal Ham off len Hoff Hoa Hlen Hla.
+  assert (Ho5 : off mod 512 = 0) by (apply (mod_of_mod off align 512); lia).
+  assert (Hl5 : len mod 512 = 0) by (apply (mod_of_mod len align 512); lia).
+  destruct (sector_cover 512 (Model.Vmdk.sp_capacity sp * 512) off len ltac:(lia) Hoff Ho5 Hlen Hl5)
+    as (Hc1 & Hc2 & Hc3 & Hc4 & Hc5).
+  pose proof Hwf as (Hw & Hg & Hcap & Hcov).
+  unfold Model.Vmdk.vmdk_read. rewrite Proofs.Vmdk.mk_vmdk_single.
+  cbn [Model.Vmdk.v_size Model.Vmdk.v_offsets Model.Vmdk.v_disks Model.Vmdk.x_size].
+  rewrite Proofs.Vmdk.SECTOR_eq. replace (0 + Model.Vmdk.sp_capacity sp * 512) with (Model.Vmdk.sp_capacity sp * 512) by lia.
+  destruct (Proofs.Vmdk.read_arith off len (Model.Vmdk.sp_capacity sp) Hoff Ho5 Hlen) as (Hc & Hend & Hn & Hoffeq & Hs).
+  set (n := Z.min len (Model.Vmdk.sp_capacity sp * 512 - off)) in *.
+  set (count := (n + 512 - 1) / 512) in *.
+  unfold Model.Vmdk.vmdk_read_sectors.
+  cbn [Model.Vmdk.v_offsets Model.Vmdk.v_disks Model.Vmdk.bisect_right skipn Z.of_nat].
+  destruct (Proofs.Vmdk.sparse_read_sectors_ok f sp hp (off / 512) count Hwf Hs ltac:(lia) Hend) as [p0 Hp0].
+  rewrite (Proofs.Vmdk.walk_single (Model.Vmdk.XSparse f sp hp) (off / 512) count p0 Hc
+             ltac:(cbn [Model.Vmdk.x_sectors]; lia) Hp0).
+  eexists _, (count * 512). split; [reflexivity|]. rewrite Proofs.Vmdk.plan_of_x_single.
+  rewrite (Proofs.Vmdk.sparse_read_sectors_correct f sp 0 hp Hw Hg (Model.Vmdk.fuel_for count) (off / 512) count p0 Hs Hp0).
+  replace ((off / 512 - 0) * 512) with off by lia.
+  split; [reflexivity|]. split; [lia|exact Hc4].
+Qed.
